@@ -174,9 +174,40 @@ def enclosing_handlers(cfg, node):
     return out
 
 
-def route(program, func, node, exc, _seen=None, _chain=None, roots_only=None):
-    """Terminals for exception class `exc` raised at cfg `node` of `func`."""
+def _recv_classes_at(cg, func, g, node, call):
+    """Classes of the receiver of `call` at cfg node, using the reaching
+    definition of a local receiver when it is unique (flow-sensitive refinement
+    of the flow-insensitive points-to result)."""
+    fn = call.func if isinstance(call, ast.Call) else None
+    if not isinstance(fn, ast.Attribute):
+        return None
+    recv = fn.value
+    if isinstance(recv, ast.Name):
+        defs = []
+        for n in g.nodes:
+            if n.kind == "stmt" and isinstance(n.ast, ast.Assign) and any(isinstance(t, ast.Name) and t.id == recv.id for t in n.ast.targets):
+                defs.append(n)
+        dom = [d for d in defs if g.dominates(d, node)]
+        if dom:
+            D = dom[0]
+            for d in dom[1:]:
+                if g.dominates(D, d):
+                    D = d
+            others = [k for k in defs if k is not D and node.id in g.reach(k, avoid=[D])]
+            if not others:
+                return {v[1] for v in cg.types_of(func, D.ast.value) if v[0] == "inst"}
+    return {v[1] for v in cg.types_of(func, recv) if v[0] == "inst"} or None
+
+
+def route(program, func, node, exc, _seen=None, _chain=None, roots_only=None, cls=None):
+    """Terminals for exception class `exc` raised at cfg `node` of `func`.
+    cls: class of `self` in func when known (receiver-sensitive climbing)."""
     cg = get_callgraph(program)
+    if cls is None and func.cls is not None:
+        g0 = func
+        while g0.parent is not None:
+            g0 = g0.parent
+        cls = g0.cls
     _seen = _seen if _seen is not None else set()
     _chain = (_chain or []) + ["%s at %s" % (func.qual, func.loc(node.ast) if node.ast is not None else func.loc())]
     g = cfg_of(func)
@@ -192,10 +223,10 @@ def route(program, func, node, exc, _seen=None, _chain=None, roots_only=None):
                 if beh == "reraise-always":
                     t.kind = "passthrough"
                 # re-raised: continues outward from the handler
-                out += route_from_handler(program, func, h, exc, _seen, _chain)
+                out += route_from_handler(program, func, h, exc, _seen, _chain, cls)
                 return out
     # leaves the function
-    key = (func.qual, exc)
+    key = (func.qual, exc, cls.qual if cls is not None else None)
     if key in _seen:
         return []
     _seen.add(key)
@@ -210,17 +241,26 @@ def route(program, func, node, exc, _seen=None, _chain=None, roots_only=None):
         cn = _node_of_call(cgf, s.node)
         if cn is None:
             continue
-        out += route(program, s.func, cn, exc, _seen, _chain)
+        ncls = None
+        sname = cg._self_name(s.func)
+        fn = s.node.func if isinstance(s.node, ast.Call) else None
+        if isinstance(fn, ast.Attribute) and isinstance(fn.value, ast.Name) and fn.value.id == sname:
+            ncls = cls if (cls is not None and s.func.cls is not None and s.func.cls in cls.mro) else None
+        elif cls is not None and func.cls is not None and isinstance(fn, ast.Attribute):
+            rc = _recv_classes_at(cg, s.func, cgf, cn, s.node)
+            if rc is not None and not any(cls is c or cls in c.mro or c in cls.mro for c in rc):
+                continue  # this call site cannot have `cls` as receiver
+        out += route(program, s.func, cn, exc, _seen, _chain, cls=ncls)
     return out
 
 
-def route_from_handler(program, func, hnode, exc, _seen, _chain):
+def route_from_handler(program, func, hnode, exc, _seen, _chain, cls=None):
     """Continue routing for an exception re-raised inside handler hnode."""
     g = cfg_of(func)
     out = []
     for n in g.nodes:
         if n.kind == "stmt" and isinstance(n.ast, ast.Raise) and any(id(n.ast) == id(x) for x in ast.walk(hnode.ast)):
-            out += route(program, func, n, exc, _seen, _chain[:-1])
+            out += route(program, func, n, exc, _seen, _chain[:-1], cls=cls)
     return out
 
 
@@ -237,7 +277,7 @@ def _node_of_call(cfg, call):
                     if x is call:
                         return n
             continue
-        if isinstance(root, (ast.If, ast.While, ast.For, ast.Try, ast.With, ast.FunctionDef, ast.AsyncFunctionDef, ast.ClassDef)):
+        if isinstance(root, (ast.If, ast.While, ast.For, ast.Try, ast.With, ast.FunctionDef, ast.AsyncFunctionDef, ast.ClassDef, ast.ExceptHandler)):
             continue
         for x in ast.walk(root):
             if x is call:
